@@ -15,6 +15,21 @@ CHECKS['C12'] = dict(
    note='hypotheses of the incremental law are the ones the API documents: consistent structure (C09), mirrored attackers (C11), the nodes passed are the newly compromised ones; purity of the real functions is a correspondence result, not a theorem',
    technique='Lean 4 proof (list induction, monotonicity of traversability) + differential correspondence',
    design='C12')
+CHECKS['C09'] = dict(
+   text='Theorems (Props/C09.lean over the state machine Model/AGS.lean): the structural invariant Consistent (children/parents inside the graph and mirrored with multiplicity, id/attacker indexes exact, name index exact for distinct full names, attacker/node references inside the graph) holds initially and is preserved by add_node, link, remove_node, add/remove_attacker, compromise/undo, attach, label writes and prune, hence after every finite history (reachable_consistent); lookups return exactly the present nodes; a removed node leaves no trace. Tied to attackgraph.py/node.py/attacker.py by random operation histories run on the real objects and the model, with a direct consistency checker on the real objects after every step.',
+   note='operations receive handles the API accepts (live nodes/attackers, existing node ids) or explicitly rejected duplicate ids; hand-added nodes have distinct full names; regenerate/deepcopy/save-load sections are correspondence-only so far',
+   technique='Lean 4 proof (invariant preserved by each operation, induction over histories) + differential correspondence on operation histories',
+   design='C09')
+CHECKS['C11'] = dict(
+   text='Theorems (Props/C11.lean): in every reachable state an attacker lists a node as reached iff the node lists the attacker (both duplicate-free); compromise is idempotent, undo of a non-compromised node is the identity, remove_attacker leaves no node compromised by it, attach creates one attacker per model attacker in order whose entry points = reached steps = the existing nodes named by the entry points. Tied to the real code by histories of compromise/undo from either side, attach, add/remove attacker.',
+   note='attackers and nodes passed to the operations belong to the graph; dataclass == coincides with identity inside one graph',
+   technique='Lean 4 proof (mirror invariant over histories) + differential correspondence',
+   design='C11')
+CHECKS['C13'] = dict(
+   text='Theorems (Props/C13.lean): prune leaves exactly the nodes that are not (or/and with a False label), in order, with labels, ids and names unchanged, none prunable left, and the result is Consistent again. Tied to apriori.prune_unviable_and_unnecessary_nodes / remove_node by random labelled graphs (adjacent and connected prunable nodes, attackers) pruned on the real code and the model.',
+   note='the graph handed to prune is structurally consistent (C09)',
+   technique='Lean 4 proof (fold characterisation + invariant reuse) + differential correspondence',
+   design='C13')
 NOT_YET = {}
 def main():
     props = [json.loads(l) for l in open(os.path.join(HERE, 'properties.jsonl'))]
